@@ -51,10 +51,15 @@ package fox
 //@   ensures @C12,C16 taken: poolOut[&c.tree.ctx] == old(poolOut[&c.tree.ctx]) + 1
 
 //@ -- copies *src into *dst, growing dst when needed; src is only read
-//@ func copyWithResize[github.com/tigerwill90/fox.Params github.com/tigerwill90/fox.Param] props C12,C08
+//@ func copyWithResize[github.com/tigerwill90/fox.Params github.com/tigerwill90/fox.Param] props C12,C08,C16
 //@   requires dst != nil && src != nil && dst != src
 //@   modifies *dst, E[Param]
 //@   ensures len(*dst) == len(*src) && *src == old(*src)
+//@   -- the destination buffer is recycled: its capacity never shrinks (a clipped buffer reallocates on a later request),
+//@   -- and nothing is allocated when it is already large enough
+//@   ensures @C16,C12 cap-kept: cap(*dst) >= old(cap(*dst)) && cap(*dst) >= len(*src)
+//@   ensures @C16,C12 in-place: old(cap(*dst)) >= len(*src) ==> nextref == old(nextref)
+//@   ensures @C12,C08 copied: forall i int :: {(*dst)[i]} 0 <= i && i < len(*src) ==> (*dst)[i] == (*src)[i]
 
 //@ func (*cTx).Close props C12
 //@   requires c != nil && c.tree != nil
